@@ -575,6 +575,11 @@ def run_one(seed, index, tier):
         out["steps"] += info["steps"]
         counters.inc("simulated_executions")
         counters.inc("thread_switches", info["switches"])
+        # the injected fault: every private copy starts undefined
+        npriv = sum(len(c["private"]) for c in built["clauses"].values())
+        counters.inc2("faults_fired", "private-storage-allocated-undefined",
+                      npriv * cfg["T"])
+        counters.inc2("faults_fired", "schedule:" + cfg["policy"])
         log.append((cfg["T"], cfg["policy"], cfg["gran"],
                     digest(info["trace"]), [v["class"] for v in vios]))
         if info["threads_with_iters"] >= 2:
